@@ -642,15 +642,30 @@ impl Variant for Enum {
     }
 
     fn super_union(&self, other: &Self) -> Result<Self> {
-        Ok(self.values().union(&other.values()).cloned().collect())
+        let values: BTreeSet<(String, i64)> =
+            self.values().union(&other.values()).cloned().collect();
+        let codes: BTreeSet<i64> = values.iter().map(|(_, i)| *i).collect();
+        if values.len() != codes.len() {
+            // The same code with two labels: no Enum contains both
+            return Err(Error::no_superset(self, other));
+        }
+        Ok(values.into_iter().collect())
     }
 
     fn super_intersection(&self, other: &Self) -> Result<Self> {
-        Ok(self
+        let values: BTreeSet<(String, i64)> = self
             .values()
             .intersection(&other.values())
             .cloned()
-            .collect())
+            .collect();
+        if values.is_empty() {
+            // An Enum cannot be empty
+            return Err(Error::other(format!(
+                "No Enum for the empty intersection of {} and {}",
+                self, other
+            )));
+        }
+        Ok(values.into_iter().collect())
     }
 
     fn minimal_subset(&self) -> Result<Self> {
